@@ -290,6 +290,10 @@ func (m *ruModel) isElemOf(f *kit.Func, e ast.Expr, elem types.Type) bool {
 				return types.Identical(t, elem)
 			}
 		}
+		// a local copy all of whose bindings are `X[k]`, k the key of a range over X
+		if rs := m.copyRange(f, o, elem); rs != nil {
+			return true
+		}
 	case *ast.IndexExpr:
 		el := ruSliceElem(info.TypeOf(x.X))
 		if el == nil || !types.Identical(el, elem) {
@@ -313,7 +317,12 @@ func (m *ruModel) elemRange(f *kit.Func, e ast.Expr) *ast.RangeStmt {
 	switch x := ast.Unparen(e).(type) {
 	case *ast.Ident:
 		if o := kit.ObjOf(info, x); o != nil {
-			return rg.val[o]
+			if rs := rg.val[o]; rs != nil {
+				return rs
+			}
+			if el := o.Type(); el != nil {
+				return m.copyRange(f, o, el)
+			}
 		}
 	case *ast.IndexExpr:
 		if o := kit.ObjOf(info, x.Index); o != nil {
@@ -516,4 +525,60 @@ func (rc *ruCorr) String() string {
 		out += l
 	}
 	return out
+}
+
+// copyRange: o is a local variable of type elem every binding of which is
+// `X[k]` with k the key variable of one range statement over X; that range
+// statement is returned (nil otherwise).
+func (m *ruModel) copyRange(f *kit.Func, o types.Object, elem types.Type) *ast.RangeStmt {
+	if o == nil || !types.Identical(o.Type(), elem) {
+		return nil
+	}
+	info := f.Info()
+	rg := m.rangesOf(f)
+	var found *ast.RangeStmt
+	ok, n := true, 0
+	check := func(rhs ast.Expr) {
+		n++
+		ix, isIx := ast.Unparen(rhs).(*ast.IndexExpr)
+		if !isIx {
+			ok = false
+			return
+		}
+		rs := rg.key[kit.ObjOf(info, ix.Index)]
+		if rs == nil || !kit.SameExpr(info, rs.X, ix.X) || (found != nil && found != rs) {
+			ok = false
+			return
+		}
+		found = rs
+	}
+	ast.Inspect(f.Body, func(x ast.Node) bool {
+		switch s := x.(type) {
+		case *ast.AssignStmt:
+			for i, l := range s.Lhs {
+				if id, isId := ast.Unparen(l).(*ast.Ident); isId && kit.ObjOf(info, id) == o {
+					if len(s.Lhs) != len(s.Rhs) {
+						ok = false
+						continue
+					}
+					check(s.Rhs[i])
+				}
+			}
+		case *ast.ValueSpec:
+			for i, nm := range s.Names {
+				if info.Defs[nm] == o {
+					if len(s.Values) != len(s.Names) {
+						ok = false
+						continue
+					}
+					check(s.Values[i])
+				}
+			}
+		}
+		return true
+	})
+	if !ok || n == 0 {
+		return nil
+	}
+	return found
 }
